@@ -625,8 +625,18 @@ Ltac cong_struct :=
   | match goal with |- (let '(_, _) := ?p in _) = _ => destruct p end
   | match goal with |- match ?x with _ => _ end = match ?x with _ => _ end => destruct x end ].
 
-Ltac cong R := repeat first [ cong_leaf R | cong_struct ].
-Ltac congc R RC := repeat first [ cong_leaf R | cong_leafc RC | cong_struct ].
+(** only when nothing structural applies: the two sides test the same thing in different words *)
+Ltac cong_stuck :=
+  first
+  [ progress unfold py_not
+  | progress cbn [negb andb orb]
+  | match goal with |- context [py_truth ?t] => is_var t; destruct (py_truth t) eqn:? end
+  | progress (unfold py_isinstance; cbn [existsb])
+  | match goal with |- context [isinst1 ?v ?t] => destruct (isinst1 v t) eqn:? end
+  | match goal with |- context [is_none ?v] => destruct (is_none v) eqn:? end ].
+
+Ltac cong R := repeat first [ cong_leaf R | cong_struct | cong_stuck ].
+Ltac congc R RC := repeat first [ cong_leaf R | cong_leafc RC | cong_struct | cong_stuck ].
 
 Theorem script_equal_dom (B1 B2 : rowm -> rowm) :
   (forall M1 M2, rel M1 M2 -> rel (B1 M1) (B2 M2)) ->
